@@ -38,4 +38,29 @@ mk('m5',H,'''				formattedLink := sv.val
 				if err := processLinkValues''','''				formattedLink := sv.val
 
 				if err := processLinkValues''')
+# m6 = seeded C15-e: Shard.Swap updates the trie before writing the child with dserv.Add (visible only when Add fails: fault stratum)
+mk('m6',H,'''	hv := newHashBits(name)
+	err := ds.dserv.Add(ctx, node)
+	if err != nil {
+		return nil, err
+	}
+
+	lnk, err := ipld.MakeLink(node)''','''	hv := newHashBits(name)
+	lnk, err := ipld.MakeLink(node)''')
+# m7 = seeded C15-f: EnumLinksAsync cancels its context before emitting the walk error (truncated listing with nil error when a sub-shard is unreadable)
+mk('m7',H,'''		defer close(linkResults)
+		defer cancel()
+
+		err := parallelShardWalk(ctx, ds, ds.dserv, func(formattedLink *ipld.Link) error {
+			emitResult(ctx, linkResults, format.LinkResult{Link: formattedLink, Err: nil})
+			return nil
+		})
+''','''		defer close(linkResults)
+
+		err := parallelShardWalk(ctx, ds, ds.dserv, func(formattedLink *ipld.Link) error {
+			emitResult(ctx, linkResults, format.LinkResult{Link: formattedLink, Err: nil})
+			return nil
+		})
+		cancel()
+''')
 print('written to', OUT)
